@@ -396,8 +396,13 @@ def server_oracle(lines, out, n_table, crashed):
                         bad.append(("grammar", "c%d reported DEACTIVATED while not activated" % ci))
                     d["active"] = False
                     d["ndeact"] += 1
-                    if d["ndeact"] > d["nstop"] + (nstart_total - d["nstart"]):
-                        bad.append(("deactivated-unexplained", "c%d reported DEACTIVATED %d times; %d STOPDT act were sent to it and %d STARTDT act to other connections" % (ci, d["ndeact"], d["nstop"], nstart_total - d["nstart"])))
+                    # only the STARTDT act of a connection of the SAME redundancy group (every other connection in single-group mode, none
+                    # in connection-is-group mode) can take the started role away
+                    def grp_of(x):
+                        return expected_group(mode, groups_live, C[x]["ip"]) if mode == 2 else (0 if mode == 0 else ("own", x))
+                    others = sum(C[o]["nstart"] for o in C if o != ci and grp_of(o) == grp_of(ci))
+                    if d["ndeact"] > d["nstop"] + others:
+                        bad.append(("deactivated-unexplained", "c%d reported DEACTIVATED %d times; %d STOPDT act were sent to it and %d STARTDT act to other connections of its redundancy group" % (ci, d["ndeact"], d["nstop"], others)))
             elif p[0] == "closed":
                 ci = int(p[1][1:])
                 d = conn(ci)
